@@ -113,6 +113,13 @@ impl MqttState {
             }
         }
 
+        // A publish waiting for its packet id to be freed was never sent. Carry it over
+        // behind the publishes which were; on its own it could never be resolved once
+        // the publish holding the id is gone
+        if let Some(publish) = self.collision.take() {
+            pending.push(Request::Publish(publish));
+        }
+
         // remove and collect pending releases
         for pkid in self.outgoing_rel.ones() {
             let request = Request::PubRel(PubRel::new(pkid as u16));
